@@ -39,6 +39,7 @@ SPEC = {
                   "proposals_returned_with_lock_request": 60, "multi_step_proposals": 5,
                   "constructor_guard_chain_double_spend_probes": 150, "constructor_guard_proto_double_spend_probes": 150,
                   "constructor_guard_step_double_spend_probes": 5, "constructor_guard_forward_reference_probes": 5,
+                  "trust_marks_set_or_cleared": 40, "trust_marks_on_part_of_a_shielding_transactions_inputs": 5,
                   "inputs_checked": 1500, "inputs_checked_transparent": 80, "witness_verifications": 800,
                   "step_balances_checked": 200, "request_above_upper_bound_refused": 20,
                   "proposals_with_ineligible_present:spent_pending": 30, "proposals_with_ineligible_present:locked_foreign": 100,
